@@ -1,6 +1,7 @@
 // C07 - prekill hooks: one hook per victim, finished or timed out before the
 // kill. History check over scripted hook events interleaved with kill events.
 #include "victimorder.h"
+#include <algorithm>
 
 #include "oomd/PluginConstructionContext.h"
 #include "oomd/config/ConfigCompiler.h"
@@ -185,6 +186,44 @@ static void runC07() {
   for (size_t i = 0; i < kr.invs.size(); i++)
     for (size_t k = kr.invs[i].begin; k <= kr.invs[i].end && k < L.size(); k++)
       invOf[k] = (int)i;
+  // The prekill window is counted from when the action chain fired: a
+  // resumed invocation (the previous invocation of the same action returned
+  // ASYNC_PAUSED) inherits the deadline of the invocation that started the
+  // chain, whatever context it is shown.
+  std::vector<int64_t> chainDeadline(kr.invs.size(), 0);
+  std::vector<bool> hasChainDeadline(kr.invs.size(), false);
+  {
+    std::map<std::string, int> lastOfWid;
+    for (size_t i = 0; i < kr.invs.size(); i++) {
+      const Invocation& inv = kr.invs[i];
+      auto it = lastOfWid.find(inv.wid);
+      bool resumed = it != lastOfWid.end() && kr.invs[it->second].ret == 'A' &&
+          !(kr.invs[it->second].plugin == "kill_by_pg_scan" &&
+            kr.invs[it->second].attempts.empty() &&
+            std::none_of(R.log.begin() + kr.invs[it->second].begin,
+                         R.log.begin() + kr.invs[it->second].end,
+                         [](const Ev& e) { return e.kind == "hook"; }));
+      if (resumed) {
+        chainDeadline[i] = chainDeadline[it->second];
+        hasChainDeadline[i] = hasChainDeadline[it->second];
+        bool has = !inv.ctx["hook_deadline"].isNull();
+        int64_t shown = has ? inv.ctx["hook_deadline"].asInt64() + R.t0_ns : 0;
+        if (has != hasChainDeadline[i] || (has && shown != chainDeadline[i])) {
+          violate("C07.window-restarted",
+                  "tick " + std::to_string(inv.tick) + " " + inv.plugin +
+                      ": resumed kill action sees a prekill deadline " +
+                      std::to_string(shown - chainDeadline[i]) +
+                      " ns later than the one of the chain it belongs to");
+          return;
+        }
+      } else {
+        hasChainDeadline[i] = !inv.ctx["hook_deadline"].isNull();
+        if (hasChainDeadline[i])
+          chainDeadline[i] = inv.ctx["hook_deadline"].asInt64() + R.t0_ns;
+      }
+      lastOfWid[inv.wid] = (int)i;
+    }
+  }
   // attempts by begin index
   std::map<size_t, std::pair<int, int>> attemptAt;
   for (size_t i = 0; i < kr.invs.size(); i++)
@@ -208,9 +247,9 @@ static void runC07() {
       }
       const Invocation& inv = kr.invs[invOf[k]];
       f.wid = inv.wid;
-      f.hasDeadline = !inv.ctx["hook_deadline"].isNull();
+      f.hasDeadline = hasChainDeadline[invOf[k]];
       if (f.hasDeadline)
-        f.deadline = inv.ctx["hook_deadline"].asInt64() + R.t0_ns;
+        f.deadline = chainDeadline[invOf[k]];
       if (liveByWid.count(f.wid)) {
         violate("C07.two-invocations-outstanding",
                 "kill action " + f.wid + " fired hook " + f.hook + " for /" +
@@ -255,9 +294,8 @@ static void runC07() {
     const Attempt& a = inv.attempts[at->second.second];
     if (a.dry || a.inc < 0)
       continue;
-    bool hasDeadline = !inv.ctx["hook_deadline"].isNull();
-    int64_t deadline =
-        hasDeadline ? inv.ctx["hook_deadline"].asInt64() + R.t0_ns : 0;
+    bool hasDeadline = hasChainDeadline[at->second.first];
+    int64_t deadline = hasDeadline ? chainDeadline[at->second.first] : 0;
     // the fire (if any) that belongs to this victim: the latest unconsumed
     // fire of this kill action for the same path
     Fire* mine = nullptr;
